@@ -62,6 +62,9 @@ of the rewrites below is unsound.  Rewrites (each applied to BOTH sides):
       is replaced by its value (S.pack(a) -> struct.pack(fmt, a), S.unpack likewise, S.size -> calcsize(fmt))
   R35 `for k, v in X.items(): B` with X side-effect free, not written and k, v not rebound in B  ->  `for k in X: B[v := X[k]]`
   R36 `x = sum(<E for v in it>, <numeric start>)`  ->  `x = <start>; for v in it: x += E`  (left fold, same additions in the same order)
+  R37 diagnostic statements with side-effect-free arguments -- print(...) not directed to a file other than sys.stderr,
+      <x>.logger.<level>(...), logging.<level>(...), warnings.warn(...) -- are not behaviour: dropped (in directional mode only
+      those the reviewed function does not have).  NOT applied to modules whose standard output is a data channel (pipe_asdf.py)
   R14 `if a: X` directly followed by `if b: X` where X ends in continue / break / return / raise, and
       `if a: X elif b: X`:  ->  `if a or b: X`
 
@@ -683,6 +686,25 @@ def _index_canon(e):
     return out
 
 
+NO_DIAGNOSTIC_REMOVAL = [False]      # set by the caller for modules that write data to standard output
+
+
+def is_diagnostic(s):
+    if not (isinstance(s, ast.Expr) and isinstance(s.value, ast.Call)):
+        return False
+    c = s.value
+    if not (all(is_pure(a) for a in c.args) and all(k.arg is not None and is_pure(k.value) for k in c.keywords)):
+        return False
+    d = dotted(c.func)
+    if d == 'print':
+        f = [k for k in c.keywords if k.arg == 'file']
+        return not f or dotted(f[0].value) == 'sys.stderr'
+    if d == 'warnings.warn':
+        return True
+    parts = d.split('.')
+    return len(parts) >= 2 and parts[-1] in ('debug', 'info', 'warning', 'error', 'critical', 'log') and parts[-2] in ('logger', 'logging', 'log', '_logger')
+
+
 def _strip(stmts):
     out = []
     for s in stmts:
@@ -980,6 +1002,9 @@ class Normaliser:
     # --------------------------------------------------------------- blocks, bottom-up structural rewrites
     def block(self, stmts):
         stmts = _strip(stmts)
+        if not NO_DIAGNOSTIC_REMOVAL[0]:
+            keep = self.opts.get('ref_diag', None)
+            stmts = [s_ for s_ in stmts if not (is_diagnostic(s_) and (not self.directional or (keep is not None and ast.dump(s_) not in keep)))]
         out = []
         for s in stmts:
             out.extend(self.stmt(s))
@@ -2261,6 +2286,7 @@ def toward_reviewed(cur_fn, ref_fn, cur_only=None):
     # rewrites that undo a restructuring are only applied when the reviewed function has the other shape
     nz.opts['continue_to_else'] = False
     nz.opts['split_elif'] = False
+    nz.opts['ref_diag'] = {ast.dump(n) for n in ast.walk(ref_fn) if isinstance(n, ast.Expr) and is_diagnostic(n)}
     gensum = lambda f: sum(1 for n in ast.walk(f) if isinstance(n, ast.Call) and dotted(n.func) == 'sum' and n.args and isinstance(n.args[0], (ast.GeneratorExp, ast.ListComp)))
     nz.opts['expand_sum'] = gensum(cur_fn) > gensum(ref_fn)
     rl = set()
